@@ -96,6 +96,12 @@ def check(env, rep, tier):
                 # the amount added must be entailed <= the reserve bound passed by the caller, which is the constant
                 from summaries2 import iter_count
                 cnt = iter_count(None, s, args[1]) if len(args) > 1 else None
+                if cnt is None and path.endswith("::resize") and len(args) > 1 and isinstance(args[1], IntV) and isinstance(tgt, RefV):
+                    cur = tr_read(s, tgt)
+                    if cur is not None:
+                        cnt = args[1].aff - cur       # resize(new_len, _) grows by new_len - len
+                if cnt is None and path.endswith("::reserve"):
+                    continue                          # capacity only: no growth of the buffer's length
                 ok = cnt is not None and const is not None and s.entails(Aff.const(const) - cnt)
                 rep.ob("C11.2", "extend-bounded", ok,
                        "extending_splice extends the buffer by %r, not shown <= %s on every path (guard missing, inverted or constant changed)" % (cnt, const),
@@ -127,6 +133,22 @@ def check(env, rep, tier):
                            {"file": es["span"]["f"], "line": es["span"]["l"], "fn": es["path"]})
             rep.ob("C11.2", "reject-path", n_err >= 1, "extending_splice has no rejecting path any more (the jump guard is gone)",
                    {"file": es["span"]["f"], "line": es["span"]["l"], "fn": es["path"]})
+
+
+def tr_read(s, ref):
+    """length of the Vec a reference points to, in state s (None if untracked)"""
+    v = s.cells.get(ref.place.key)
+    try:
+        for kind, i in ref.place.proj:
+            if kind == "f":
+                v = v.fields[i]
+            elif kind == "v":
+                v = v.variants[i]
+            else:
+                return None
+    except Exception:
+        return None
+    return v.len if isinstance(v, VecV) else None
 
 
 def check_reject_keeps_buffer(prog, rep):
